@@ -349,6 +349,20 @@ class ColorService:
                 for item in attr:
                     extract_colors_from_attribute(item)
 
+        border_color_attrs = (
+            "border_color_left",
+            "border_color_right",
+            "border_color_top",
+            "border_color_bottom",
+            "border_color_first",
+            "border_color_last",
+        )
+
+        def extract_border_colors(component):
+            """Border colours of a table-rendered component (header/footnote/source)."""
+            for attr_name in border_color_attrs:
+                extract_colors_from_attribute(getattr(component, attr_name, None))
+
         # Collect colors from RTF body
         if document.rtf_body:
             bodies = (
@@ -382,6 +396,7 @@ class ColorService:
                 extract_colors_from_attribute(
                     getattr(component, "text_background_color", None)
                 )
+                extract_border_colors(component)
 
         # Collect colors from column headers
         if document.rtf_column_header:
@@ -397,6 +412,7 @@ class ColorService:
                             extract_colors_from_attribute(
                                 getattr(header, "text_background_color", None)
                             )
+                            extract_border_colors(header)
             else:
                 # Flat format
                 for header in headers:
@@ -407,6 +423,7 @@ class ColorService:
                         extract_colors_from_attribute(
                             getattr(header, "text_background_color", None)
                         )
+                        extract_border_colors(header)
 
         return list(used_colors)
 
